@@ -5,7 +5,7 @@
 From Coq Require Import ZArith List Bool Lia ZifyBool QArith.
 From Coq Require String Ascii.
 Import Coq.Strings.String.StringSyntax.
-From Segno Require Import Base.PyLite Ref.IsoData Ref.Pixel Model.Iter Model.Color Model.TextFmt Ref.TextFmtReader.
+From Segno Require Import Base.PyLite Base.PyCase Ref.IsoData Ref.Pixel Model.Iter Model.Color Model.TextFmt Ref.TextFmtReader.
 From Segno Require Import Lemmas.IterLemmas.
 Import ListNotations.
 Open Scope Z_scope.
@@ -1430,7 +1430,7 @@ Proof.
   assert (E : scale <? 1 = false) by lia. rewrite E, Hb. cbn [orb].
   assert (Hc : xpm_color (Some (CStr [])) = Err e).
   { cbn [xpm_color]. unfold color_to_rgb_hex, color_to_rgb, color_to_rgb_or_rgba. cbn [color_to_rgba].
-    change (assoc_str (lower []) _) with (assoc_str [] NAME2RGB).
+    change (assoc_str (py_lower []) _) with (assoc_str [] NAME2RGB).
     assert (Hn : assoc_str [] NAME2RGB = None) by (vm_compute; reflexivity).
     rewrite Hn, He. destruct e; reflexivity. }
   rewrite Hc. reflexivity.
